@@ -1294,10 +1294,9 @@ class TensorDict(TensorDictBase):
                 item_trsf = td._multithread_rebuild(
                     batch_size=batch_size,
                     device=device,
-                    names=names,
                     inplace=inplace,
                     checked=checked,
-                    out=out,
+                    out=out._get_str(key, default=None) if out is not None else None,
                     filter_empty=filter_empty,
                     executor=executor,
                     futures=futures,
